@@ -442,7 +442,7 @@ class GrammarCoverageFuzzer(GrammarFuzzer):
         self._symbols_seen: Set[str] = set()
         cov = self._max_expansion_coverage(symbol, max_depth)
 
-        if symbol == "<start>":
+        if symbol == "<start>" and max_depth == float("inf"):
             assert len(self._symbols_seen) == len(self.grammar)
 
         return cov
